@@ -384,4 +384,73 @@ Proof.
   split; [exact Pt |]. split; [exact Pp |]. split; [exact Psp |]. split; [exact HI' |].
   rewrite Er, Eput. reflexivity.
 Qed.
+
+(* ================================================================== every step of every thread *)
+Lemma inv_switch R prods cs1 cs2 : Inv lo (mkCfg R cs1 prods) -> head' R cs1 = r_head R ->
+  (cs2 = idle_cs \/ exists l, cs2 = cstart [l]) -> Inv lo (mkCfg R cs2 prods).
+Proof. intros HI Hh Hc. apply (inv_cons_pure lo R cs1 cs2 prods HI).
+  - rewrite Hh. destruct Hc as [-> | (l & ->)]; reflexivity.
+  - destruct Hc as [-> | (l & ->)]; [exact I |]. unfold cons_ok, cstart, has_limit. cbn [c_pc c_limits c_k]. exists l. reflexivity. Qed.
+
+Lemma cs_of_at ops k res : cs_of (a_at ops k res) = idle_cs \/ exists l, cs_of (a_at ops k res) = cstart [l].
+Proof. unfold cs_of, a_at. cbn [a_mode]. destruct (nth_error ops k) as [[l |] |]; [right; exists l; reflexivity | left; reflexivity | left; reflexivity]. Qed.
+
+Lemma agent_ok_at R ops k res prods : agent_ok (mkACfg R (a_at ops k res) prods).
+Proof. unfold agent_ok, a_at. cbn [ag_agent a_mode]. destruct (nth_error ops k) as [[l |] |]; exact I. Qed.
+
+Definition in_xwindow (x : aconfig) : Prop := r_tail (ag_ring x) + 2 * r_cap (ag_ring x) <= two62.
+
+Theorem xstep_inv m x tid x' e :
+  XInv x -> xstep m x tid = Some (x', e) -> (forall i, tid = S i -> ~ dead i) -> in_xwindow x' ->
+  (forall h L, a_mode (ag_agent x) = AUnblocking (UPut h L) -> tid = O -> put_safe (ag_ring x) h L) ->
+  XInv x' \/
+  (exists h L swept suffix pad, a_mode (ag_agent x) = AUnblocking (UPut h L) /\ tid = O /\
+     r_slots (ag_ring x) = swept ++ suffix /\ swept <> [] /\ Forall (fun s => s_len s <= 0 /\ owner_dead s) swept /\
+     s_type pad = PAD /\ s_pos pad = r_head (ag_ring x) /\ s_span pad = span_sum swept /\
+     ag_ring x' = set_slots (ag_ring x) (put_hdr (r_slots (ag_ring x)) h L PAD) /\ ag_prods x' = ag_prods x /\
+     let xd := mkACfg (set_slots (ag_ring x) (pad :: suffix)) (ag_agent x') (retire swept (ag_prods x)) in
+     XInv xd /\ render (ag_ring xd) = render (ag_ring x')).
+Proof.
+  intros (HI & HA) Hs Hlive Hw Hsafe. unfold xstep in Hs. destruct tid as [| i].
+  - (* the agent *)
+    destruct x as [R a prods]. cbn [ag_ring ag_agent ag_prods] in *. unfold astep in Hs. unfold cfg_of in HI. cbn [ag_ring ag_agent ag_prods] in HI.
+    unfold agent_ok in HA. cbn [ag_agent] in HA. unfold cs_of in HI.
+    destruct (a_mode a) as [| | cs | u] eqn:Em; try discriminate.
+    + (* a read in progress *)
+      destruct (cstep m R cs) as [[R1 cs1] [ev1 |]] eqn:Ec; [| discriminate].
+      pose proof (cstep_inv lo m (mkCfg R cs prods) R1 cs1 ev1 HI Ec) as HI1. cbn [g_prods] in HI1.
+      pose proof (proj1 (inv_no_panic _ _ HI1)) as Hnp. cbn [g_cons] in Hnp.
+      destruct (c_pc cs1) eqn:Epc; try congruence; inversion Hs; subst x' e; left; split;
+        try (unfold cfg_of, cs_of, a_set; cbn [ag_ring ag_agent ag_prods a_mode]; exact HI1);
+        try (unfold agent_ok, a_set; cbn [ag_agent a_mode]; exact I).
+      * unfold cfg_of. cbn [ag_ring ag_agent ag_prods]. apply (inv_switch R1 prods cs1); [exact HI1 | unfold head'; rewrite Epc; reflexivity | apply cs_of_at].
+      * apply agent_ok_at.
+    + (* unblock *)
+      destruct (ustep R u) as [[R1 nxt] ev1] eqn:Eu.
+      pose proof (ustep_ok R prods HI u R1 nxt ev1 HA Eu) as Hok.
+      destruct nxt as [u' | [|]].
+      * destruct Hok as (-> & Hu'). inversion Hs; subst x' e. left. split.
+        -- unfold cfg_of, cs_of, a_set. cbn [ag_ring ag_agent ag_prods a_mode]. exact HI.
+        -- unfold agent_ok, a_set. cbn [ag_agent a_mode ag_ring]. exact Hu'.
+      * destruct Hok as (h & L & -> & ->). inversion Hs; subst x' e. right.
+        specialize (Hsafe h L eq_refl eq_refl).
+        destruct (agent_put R prods h L HI HA Hsafe) as (swept & suffix & pad & Es & Hne & Hsw & Pt & Pp & Psp & HI' & Er).
+        exists h, L, swept, suffix, pad. cbn [ag_ring ag_agent ag_prods].
+        split; [reflexivity |]. split; [reflexivity |]. split; [exact Es |]. split; [exact Hne |]. split; [exact Hsw |].
+        split; [exact Pt |]. split; [exact Pp |]. split; [exact Psp |]. split; [reflexivity |]. split; [reflexivity |].
+        split; [| exact Er]. split; [| apply agent_ok_at].
+        unfold cfg_of. cbn [ag_ring ag_agent ag_prods].
+        apply (inv_switch _ _ idle_cs); [exact HI' | reflexivity | apply cs_of_at].
+      * subst R1. inversion Hs; subst x' e. left. split; [| apply agent_ok_at].
+        unfold cfg_of. cbn [ag_ring ag_agent ag_prods]. apply (inv_switch R prods idle_cs); [exact HI | reflexivity | apply cs_of_at].
+  - (* a producer that is alive *)
+    destruct (nth_error (ag_prods x) i) as [ps |] eqn:Ei; [| discriminate].
+    destruct (pstep m (ag_ring x) (Z.of_nat (S i)) ps) as [[R1 ps1] [ev1 |]] eqn:Ep; [| discriminate].
+    inversion Hs; subst x' e. left.
+    pose proof (pstep_inv lo m (cfg_of x) i ps R1 ps1 ev1 HI Ei Ep Hw) as HI1.
+    split; [exact HI1 |].
+    unfold agent_ok in *. cbn [ag_agent ag_ring]. destruct (a_mode (ag_agent x)) as [| | cs | u]; auto.
+    destruct (pstep_frame m (cfg_of x) i ps R1 ps1 ev1 HI Ei (Hlive i eq_refl) Ep) as (Ec & Eh & Et & Hb & Hf).
+    eapply unb_ok_frame; eassumption.
+Qed.
 End Agent.
